@@ -185,7 +185,9 @@ pub fn eval_bdd_dot(dot: &Dot, names: &[String], filter: &str) -> Result<(Tt, us
         let (t, f) = (t_edge.contains_key(id), f_edge.contains_key(id));
         match filter {
             "any" if !(t && f) => return Err(format!("node {} lacks a T or F edge", id)),
-            _ if !t && !f => return Err(format!("node {} has no outgoing edge", id)),
+            // under a True / False filter an absent edge leads to the omitted leaf; a node of a
+            // diagram that is not reduced may have lost both (whether the function is right is
+            // decided by evaluating the graph)
             _ => {}
         }
     }
